@@ -155,3 +155,34 @@ def decode_args(args):
     if not isinstance(args, dict):
         return args
     return dict((k, (bytes.fromhex(v["__bytes__"]) if isinstance(v, dict) and "__bytes__" in v else v)) for k, v in args.items())
+
+
+def save_process():
+    """Snapshot of the dds process-level state (to come back to a long-lived process after simulating another one)."""
+    import dds._api as api
+    import dds.introspect as intro
+    import dds.codec as codec
+    import dds._config as cfg
+    import dds._global_ctx as gc
+
+    return {"store": api._store_var, "gctx": intro._global_context, "registry": codec._registry, "options": dict(cfg._options_values), "accepted": set(intro._accepted_packages)}
+
+
+def restore_process(st):
+    import dds._api as api
+    import dds.introspect as intro
+    import dds.codec as codec
+    import dds._config as cfg
+    import dds._global_ctx as gc
+
+    api._store_var = st["store"]
+    api._eval_ctx = None
+    intro._global_context = st["gctx"]
+    gc._global_context = st["gctx"]
+    codec._registry = st["registry"]
+    cfg._options_values.update(st["options"])
+    for p in list(intro._accepted_packages):
+        if p not in st["accepted"]:
+            intro._accepted_packages.discard(p)
+    for p in st["accepted"]:
+        intro._accepted_packages.add(p)
